@@ -383,6 +383,15 @@ def q_result_reverse(P, x):
 def q_result_sort(P, x):
     r = q_ordered(P, x)[:]; first = list(r); r.sort(reverse=True)
     return [first, list(r)]
+# ONE lambda object / ONE lambda text used as a whole query (Entity.select(f): a generator tree over '.0') and as a refinement of another query
+LAMS = [lambda p: p.a > 1, lambda p: p.b is None, lambda p: p.s.startswith('a')]
+LAMTEXTS = ['lambda p: p.a > 1', 'lambda p: p.b is None']
+def q_lam_select(P, i): return ids(P.select(LAMS[i]))
+def q_lam_filter(P, i): return ids(select(p for p in P).filter(LAMS[i]))
+def q_lam_where(P, i): return ids(select(p for p in P).where(LAMS[i]))
+def q_lam_exists(P, i): return P.exists(LAMS[i])
+def q_lamtext_select(P, i): return ids(P.select(LAMTEXTS[i]))
+def q_lamtext_filter(P, i): return ids(select(p for p in P).filter(LAMTEXTS[i]))
 def q_rawq(P, x): return srt(select(p.id for p in P if raw_sql("p.a > $x"))[:])
 def q_rawexpr(P, x): return srt(select((p.id, raw_sql("p.a + $x")) for p in P)[:])
 def r_select(db, x): return srt(db.select("select id from P where a > $x"))
@@ -422,6 +431,7 @@ class Env(object):
 QUERIES = {f.__name__: f for f in [q_cmp, q_cmpb, q_ne, q_date, q_str, q_in, q_slice, q_slice1, q_slice2, q_getattr, q_obj, q_fcall, q_lambda, q_lambda_s,
                                   q_strq, q_strq2, q_strlambda, q_filter, q_filter_s, q_where_a, q_where_b, q_order_s, q_order_d, q_order_l,
                                   q_count, q_sum, q_min, q_max, q_avg, q_countd, q_exists, q_first, q_get, q_page, q_limit, q_distinct, q_nodistinct,
+                                  q_lam_select, q_lam_filter, q_lam_where, q_lam_exists, q_lamtext_select, q_lamtext_filter,
                                   q_text_order_by, q_text_sort_by, q_text_filter, q_text_where, q_zf_order_by, q_zf_filter, q_zf_where,
                                   q_result_plain, q_result_reverse, q_result_sort,
                                   q_base, q_base_count, q_base_limit, q_base_sum, q_derived, q_derived_plain, q_derived_limit, q_derived_nested, q_derived_filter,
@@ -584,6 +594,7 @@ def gen_value(rng, kinds):
     if k == 'tuple': return ['@tuple'] + [rng.choice(INTS) for _ in range(rng.choice([0, 1, 2, 3]))]
     if k == 'list': return ['@list'] + [rng.choice(INTS) for _ in range(rng.choice([0, 1, 2, 3]))]
     if k == 'strtuple': return ['@tuple'] + [rng.choice(['a', 'b']) for _ in range(rng.choice([1, 2]))]
+    if k == 'two': return rng.randrange(2)
     if k == 'txt': return rng.randrange(4)
     if k == 'zf': return rng.randrange(3)
     if k == 'lim': return rng.choice([1, 2, 3])
@@ -614,6 +625,8 @@ QSPEC = [   # (step, argument kinds per position, weight)
     ('e_select_ab', [['int'], ['int', 'none']], 2),
     ('q_count_d', [['int'], ['tri']], 3), ('q_sum_d', [['int'], ['tri']], 1), ('q_avg_d', [['int'], ['tri']], 1), ('q_gc', [['int'], ['sep'], ['tri']], 1),
     ('q_count_ent_d', [['int'], ['tri']], 1), ('q_nested_slice', [['bound', 'none'], ['bound', 'none']], 2),
+    ('q_lam_select', [['zf']], 2), ('q_lam_filter', [['zf']], 2), ('q_lam_where', [['zf']], 1), ('q_lam_exists', [['zf']], 1),
+    ('q_lamtext_select', [['two']], 1), ('q_lamtext_filter', [['two']], 1),
     ('q_text_order_by', [['txt']], 2), ('q_text_sort_by', [['txt']], 1), ('q_text_filter', [['txt']], 2), ('q_text_where', [['txt']], 2),
     ('q_zf_order_by', [['zf']], 2), ('q_zf_filter', [['zf']], 2), ('q_zf_where', [['zf']], 1),
     ('q_result_plain', [['int']], 2), ('q_result_reverse', [['int']], 1), ('q_result_sort', [['int']], 1),
@@ -796,7 +809,7 @@ def random_histories(ctx):
     flush_protocol(ctx)
 
 
-POOL = {'txt': [0, 1, 2, 3], 'zf': [0, 1, 2], 'lim': [1, 2, 3], 'tri': [None, False, True], 'sep': [None, ',', '|'], 'cond': [0, 1, 2, 3, 4, 5], 'bound': [1, 2, 3, -1, -2], 'int': [1, 3, -1], 'none': [None], 'str': ['ab', 'b%'], 'date': [['@date', 2020, 1, 1], ['@date', 2021, 1, 1]], 'bool': [True], 'float': [1.5],
+POOL = {'two': [0, 1], 'txt': [0, 1, 2, 3], 'zf': [0, 1, 2], 'lim': [1, 2, 3], 'tri': [None, False, True], 'sep': [None, ',', '|'], 'cond': [0, 1, 2, 3, 4, 5], 'bound': [1, 2, 3, -1, -2], 'int': [1, 3, -1], 'none': [None], 'str': ['ab', 'b%'], 'date': [['@date', 2020, 1, 1], ['@date', 2021, 1, 1]], 'bool': [True], 'float': [1.5],
         'tuple': [['@tuple'], ['@tuple', 1], ['@tuple', 1, 3]], 'list': [['@list', 1], ['@list', 0, 3]], 'strtuple': [['@tuple', 'a']],
         'obj': [['@obj', 'G', 1], ['@obj', 'G', 2]], 'pobj': [['@obj', 'P', 1]]}
 SPECIALS = [
@@ -811,6 +824,8 @@ SPECIALS = [
     [['q_derived', 1, 3], ['q_base', 1], ['q_base_count', 1], ['q_base_limit', 1, 2], ['q_base_sum', 1], ['q_derived_plain', 1], ['q_derived_limit', 1, 2, 5], ['q_derived_nested', 1, 5],
      ['q_derived_filter', 1, 3], ['q_derived', 0, 2]],
     [['q_text_order_by', 0], ['q_text_filter', 0], ['q_text_where', 0], ['q_text_sort_by', 0], ['q_text_order_by', 1], ['q_text_filter', 1], ['q_text_where', 1]],
+    [['q_lam_select', 0], ['q_lam_filter', 0], ['q_lam_where', 0], ['q_lam_exists', 0], ['q_lam_select', 1], ['q_lam_filter', 1]],
+    [['q_lamtext_select', 0], ['q_lamtext_filter', 0], ['q_lamtext_select', 1], ['q_lamtext_filter', 1]],
     [['q_zf_order_by', 0], ['q_zf_filter', 0], ['q_zf_where', 0], ['q_zf_order_by', 1], ['q_zf_filter', 1], ['q_zf_where', 1]],
     [['q_result_plain', 0], ['q_result_reverse', 0], ['q_result_sort', 0], ['q_result_plain', 1]],
     [['q_hyb_filter', None], ['q_hyb_filter', 1], ['q_hyb_filter', 0], ['q_hyb_where', None], ['q_hyb_where', 1], ['q_hyb_select', None], ['q_hyb_select', 3]],
